@@ -1097,11 +1097,11 @@ first_for_expr:
             }
     |   constant '%' constant
             {
-                if ($3) $$ = $1 % $3; else yyerror("Modulo by zero");
+                if ($3 == -1) $$ = 0; else if ($3) $$ = $1 % $3; else yyerror("Modulo by zero");
             }
     |   constant '/' constant
             {
-                if ($3) $$ = $1 / $3; else yyerror("Division by zero");
+                if ($3 == -1) $$ = (int64_t)(0 - (uint64_t)$1); else if ($3) $$ = $1 / $3; else yyerror("Division by zero");
             }
     |   '(' constant ')'
             {
@@ -1739,7 +1739,10 @@ add_error:
                             break;
                         }
                         $$ = $1;
-                        $1->v.number /= $3->v.number;
+                        if ($3->v.number == -1)
+                            $1->v.number = (int64_t)(0 - (uint64_t)$1->v.number); /* INT64_MIN / -1 traps */
+                        else
+                            $1->v.number /= $3->v.number;
                         break;
                     }
                     if ($3->kind == NODE_REAL) {
